@@ -230,6 +230,7 @@ func runC18(c *Ctx) {
 	if nGo < 4 {
 		R.Fatal("only %d go statements found in service (anchor)", nGo)
 	}
+	c.handlerRoles(ri)
 	// ---- frame headers are shared between a session and the first message: only the reader (before hand-over) and the
 	// writer may look inside one; the manager and API callers only pass the pointer on
 	{
@@ -370,4 +371,187 @@ func derefNamed(t types.Type) (string, bool) {
 		return n.Obj().Name(), true
 	}
 	return "", false
+}
+
+// handlerRoles: the handler objects of a connection (one per command, created with the connection and attached to every
+// message of that command) are worked on by the writer - Parse fills the handler's fields, ReplyBody reads them. Any
+// other role may therefore call only handler methods that do not write the handler in any of the repository's
+// implementations; a reader that parses message N+1 into the handler races with the writer still working on message N.
+func (c *Ctx) handlerRoles(ri *roleInfo) {
+	R := c.R
+	rule := "E5.handler-roles"
+	R.Rules[rule] = "a method of the per-connection Handler objects that writes its receiver in some implementation of the repository (Parse, and whatever else stores into the handler) is invoked in the writer role only; the reader and the other roles call only methods that leave the handler untouched"
+	svc := c.P.Pkg("service")
+	if svc == nil {
+		R.Fatal("%s: package service not loaded", rule)
+		return
+	}
+	obj := svc.Pkg.Scope().Lookup("Handler")
+	if obj == nil {
+		R.Fatal("%s: interface service.Handler not found (anchor)", rule)
+		return
+	}
+	iface, isI := obj.Type().Underlying().(*types.Interface)
+	if !isI {
+		R.Fatal("%s: service.Handler is not an interface", rule)
+		return
+	}
+	// implementations in the repository
+	var impls []types.Type
+	for _, pk := range c.P.Pkgs {
+		sc := pk.Types.Scope()
+		for _, nm := range sc.Names() {
+			tn, isTN := sc.Lookup(nm).(*types.TypeName)
+			if !isTN || tn.IsAlias() {
+				continue
+			}
+			if _, isIf := tn.Type().Underlying().(*types.Interface); isIf {
+				continue
+			}
+			if named, isN := tn.Type().(*types.Named); isN && named.TypeParams().Len() > 0 {
+				continue
+			}
+			pt := types.NewPointer(tn.Type())
+			// Handler is assembled from JT808Handler (implemented by the message types) and Eventer (added by a wrapper that
+			// embeds the JT808Handler): an implementation of any part contributes its methods
+			ok := types.Implements(pt, iface)
+			for e := 0; e < iface.NumEmbeddeds() && !ok; e++ {
+				if ei, isEI := iface.EmbeddedType(e).Underlying().(*types.Interface); isEI && ei.NumMethods() > 0 && types.Implements(pt, ei) {
+					ok = true
+				}
+			}
+			if ok {
+				impls = append(impls, pt)
+			}
+		}
+	}
+	if len(impls) < 20 {
+		R.Fatal("%s: only %d implementations of service.Handler found in the repository (anchor: the message types of protocol/model)", rule, len(impls))
+		return
+	}
+	// does fn write memory reached from its parameter pi?
+	memo := map[string]bool{}
+	var writes func(fn *ssa.Function, pi int, depth int) bool
+	writes = func(fn *ssa.Function, pi int, depth int) bool {
+		if fn == nil || len(fn.Blocks) == 0 || pi >= len(fn.Params) || depth > 4 {
+			return false
+		}
+		key := fmt.Sprintf("%s#%d", fn.String(), pi)
+		if v, ok := memo[key]; ok {
+			return v
+		}
+		memo[key] = false
+		root := ssa.Value(fn.Params[pi])
+		var rooted func(v ssa.Value, d int) bool
+		rooted = func(v ssa.Value, d int) bool {
+			if v == root {
+				return true
+			}
+			if d > 6 {
+				return false
+			}
+			switch x := v.(type) {
+			case *ssa.FieldAddr:
+				return rooted(x.X, d+1)
+			case *ssa.IndexAddr:
+				return rooted(x.X, d+1)
+			case *ssa.UnOp:
+				if x.Op == token.MUL {
+					return rooted(x.X, d+1)
+				}
+			case *ssa.Slice:
+				return rooted(x.X, d+1)
+			case *ssa.ChangeType:
+				return rooted(x.X, d+1)
+			}
+			return false
+		}
+		res := false
+		for _, b := range fn.Blocks {
+			for _, ins := range b.Instrs {
+				switch x := ins.(type) {
+				case *ssa.Store:
+					if rooted(x.Addr, 0) {
+						res = true
+					}
+				case *ssa.MapUpdate:
+					if rooted(x.Map, 0) {
+						res = true
+					}
+				case ssa.CallInstruction:
+					if sc := x.Common().StaticCallee(); sc != nil && c.P.IsRepoFunc(sc) {
+						for ai, a := range x.Common().Args {
+							if _, isPtr := a.Type().Underlying().(*types.Pointer); isPtr && rooted(a, 0) && writes(sc, ai, depth+1) {
+								res = true
+							}
+						}
+					}
+				}
+			}
+		}
+		memo[key] = res
+		return res
+	}
+	mutating := map[string]string{} // method name -> an implementation that writes its receiver
+	for i := 0; i < iface.NumMethods(); i++ {
+		m := iface.Method(i)
+		for _, pt := range impls {
+			ms := c.P.SSA.MethodSets.MethodSet(pt)
+			sel := ms.Lookup(m.Pkg(), m.Name())
+			if sel == nil {
+				continue
+			}
+			if f := c.P.SSA.MethodValue(sel); f != nil && writes(f, 0, 0) {
+				if _, have := mutating[m.Name()]; !have {
+					mutating[m.Name()] = shortFn(f)
+				}
+			}
+		}
+	}
+	if _, ok := mutating["Parse"]; !ok {
+		R.Fatal("%s: no implementation of Handler.Parse writes its receiver (the rule's premise; confirmed by hand for every message type)", rule)
+		return
+	}
+	n := 0
+	for _, fn := range c.RepoFuncs("service") {
+		roles := rolesOf(ri, fn)
+		for _, b := range fn.Blocks {
+			for _, ins := range b.Instrs {
+				ci, isCI := ins.(ssa.CallInstruction)
+				if !isCI || !ci.Common().IsInvoke() {
+					continue
+				}
+				rt := ci.Common().Value.Type()
+				if named, isN := rt.(*types.Named); !isN || named.Obj() != obj {
+					continue
+				}
+				n++
+				mname := ci.Common().Method.Name()
+				st, d := report.Discharged, ""
+				if impl, mut := mutating[mname]; mut {
+					var foreign []string
+					for _, r := range roles {
+						if r != "writer" {
+							foreign = append(foreign, r)
+						}
+					}
+					if len(foreign) > 0 || len(roles) == 0 {
+						st, d = report.Violated, fmt.Sprintf("Handler.%s writes the handler (e.g. %s) and is invoked here in role %v; the writer works on the same per-connection handler object (Parse / ReplyBody of the previous message of that command): unsynchronised write/read of the handler's fields", mname, impl, roles)
+					}
+				}
+				R.Add(rule, shortFn(fn)+" / "+c.constructOf(fn, ins), c.P.RelPos(ins.Pos()), st, d)
+			}
+		}
+	}
+	var mm []string
+	for k, v := range mutating {
+		mm = append(mm, k+" ("+v+")")
+	}
+	sort.Strings(mm)
+	R.Notes["handler_methods_that_write_the_handler"] = mm
+	R.Notes["handler_implementations"] = len(impls)
+	if n < 6 {
+		R.Fatal("%s: only %d invocations of Handler methods found in service (anchor)", rule, n)
+	}
+	R.Require(rule, 6, "")
 }
